@@ -254,6 +254,22 @@ def write_ndjson(path, items):
             f.write(json.dumps(it, separators=(",", ":")) + "\n")
 
 
+SHARD_TIMEOUTS = []
+
+
+def _drop_partial_test(op):
+    """Cut a trace file back to its last complete test (reset ... end)."""
+    if not os.path.exists(op):
+        return
+    lines = open(op).read().splitlines(True)
+    last = 0
+    for i, line in enumerate(lines):
+        if '"ev":"end"' in line[:20]:
+            last = i + 1
+    with open(op, "w") as f:
+        f.writelines(lines[:last])
+
+
 def run_harness(binp, tests, wdir, shards=NCPU, timeout=900, per_test_timeout="180s", env=None, max_hangs=4):
     """Run tests through the harness in parallel shards.  Returns a list of
     (tests_of_shard, trace_path).  A dead process is restarted after the test
@@ -275,8 +291,15 @@ def run_harness(binp, tests, wdir, shards=NCPU, timeout=900, per_test_timeout="1
         start = 0
         hangs = 0
         while start < len(part):
-            p = subprocess.run([binp, "run", "-tests", tp, "-out", op, "-start", str(start), "-work", dbdir, "-timeout", per_test_timeout],
-                               stdout=subprocess.PIPE, stderr=subprocess.PIPE, text=True, timeout=timeout, env=env)
+            try:
+                p = subprocess.run([binp, "run", "-tests", tp, "-out", op, "-start", str(start), "-work", dbdir, "-timeout", per_test_timeout],
+                                   stdout=subprocess.PIPE, stderr=subprocess.PIPE, text=True, timeout=timeout, env=env)
+            except subprocess.TimeoutExpired:
+                # the shard as a whole ran out of time (every test slow, none stuck): what was recorded completely is still
+                # judged; the check cannot end with "held" (run_check turns this into exit 2 unless a violation was found)
+                SHARD_TIMEOUTS.append(tp)
+                _drop_partial_test(op)
+                break
             if p.returncode == 0:
                 break
             # count finished tests
@@ -410,6 +433,9 @@ def validate_trace(trace_path, invs, wdir, module="SodTrace", dev=(), timeout=90
             extra = '  TraceFileB = "%s"\n' % fp2
         cfg = TRACE_CFG % {"file": fp, "extra": extra, "dev": ", ".join('"%s"' % d for d in devs), "invs": " ".join(invs)}
         r = tlc(module, cfg, wdir, workers=1, timeout=timeout, heap=heap, name="%s_%d" % (module, stat["runs"]))
+        if r.timeout:
+            # a saturated machine: once more with three times the delay before giving up (exit 2, never a verdict)
+            r = tlc(module, cfg, wdir, workers=1, timeout=timeout * 3, heap=heap, name="%s_%d_retry" % (module, stat["runs"]))
         stat["runs"] += 1
         stat["states"] += r.distinct
         os.remove(fp)
